@@ -3,6 +3,7 @@ package main
 import (
 	"fmt"
 	"go/token"
+	"go/types"
 	"golang.org/x/tools/go/ssa"
 	"strings"
 )
@@ -43,6 +44,8 @@ func runC01(c *Ctx) {
 	// the continuity decision's necessary conditions (shared with C04)
 	c04DefaultDeny(c)
 	c04Helpers(c)
+	c04SessionState(c)
+	c01PosCacheAtomic(c, "R10-position-cache-atomic")
 	c01Ack(c)
 	c01Bound(c)
 }
@@ -183,4 +186,64 @@ func c01Ack(c *Ctx) {
 		}
 	}
 	// Store.Close returns the first non-interrupt error of any DB.Close: covered by the cone walk
+}
+
+// c01PosCacheAtomic: (*DB).Pos recomputes the position from the local LTX directory when
+// the cache was invalidated and stores it back.  The miss test and the fill are one critical
+// section of the cache's mutex: a recompute that runs unlocked can finish after a concurrent
+// sync published the next TXID and put the older position back (the next sync then rewrites
+// an L0 file that is already on the replica, and the replica never sees the new content).
+func c01PosCacheAtomic(c *Ctx, rule string) {
+	fn := c.fn(rule, "(*ls.DB).Pos")
+	if fn == nil {
+		return
+	}
+	isVal := func(in ssa.Instruction) (*ssa.FieldAddr, bool) {
+		var addr ssa.Value
+		switch x := in.(type) {
+		case *ssa.Store:
+			addr = x.Addr
+		case *ssa.UnOp:
+			if x.Op == token.MUL {
+				addr = x.X
+			}
+		}
+		fa, ok := addr.(*ssa.FieldAddr)
+		if !ok {
+			return nil, false
+		}
+		base, ok := fa.X.(*ssa.FieldAddr)
+		if !ok || fieldAddrName(base) != "DB.pos" {
+			return nil, false
+		}
+		if st, isSt := deref(base.Type()).Underlying().(*types.Struct); !isSt || st.Field(fa.Field).Name() != "value" {
+			return nil, false
+		}
+		return fa, true
+	}
+	var loads, fills []ssa.Instruction
+	for _, b := range fn.Blocks {
+		for _, in := range b.Instrs {
+			if _, ok := isVal(in); !ok {
+				continue
+			}
+			if _, isSt := in.(*ssa.Store); isSt {
+				fills = append(fills, in)
+			} else {
+				loads = append(loads, in)
+			}
+		}
+	}
+	c.floor(rule, len(loads), 1, "reads of the cached position in DB.Pos")
+	c.floor(rule, len(fills), 1, "fills of the cached position in DB.Pos")
+	for _, f := range fills {
+		ok := false
+		for _, l := range loads {
+			if dominates(l, f) && !releaseBetween(fn, l, f, "DB.pos.Mutex") {
+				ok = true
+			}
+		}
+		c.check(ok, rule, fnName(fn)+": the miss and the fill of the position cache happen in one critical section", c.pos(f), "no Unlock of DB.pos between the miss and the fill",
+			"the position cache is filled in another critical section than the one that saw it empty: a recompute that started before a concurrent sync can overwrite the newer position")
+	}
 }
